@@ -115,6 +115,30 @@ def run(C, R):
                                '%s: a notified waiter leaves the Notified state without locking and %s [%s]' % (
                                    m['path'], why, path_cond(E, path)), where(F, ws[0][1]),
                                {'trace': trace_summary(path)})
+            # R6: a notified waiter that finds the mutex free takes it (otherwise the wake-up it holds is wasted
+            # and, in fair mode, everybody behind it is stuck)
+            for path in paths:
+                if path.exit == 'return' and poll_variant(E, path) is None:
+                    continue
+                for root in owns:
+                    sloc = root + ('data', 'state')
+                    if path.facts.get(('discr', ('init', sloc))) != ('eq', 'Notified'):
+                        continue
+                    free = const_of(E, path.facts, ('init', (('P', 'self'), 'is_locked'))) == 0
+                    if not free:
+                        continue
+                    if path.exit == 'return' and poll_variant(E, path) == 'Ready':
+                        R.ok('C03.R6', '%s|notified + free => locks|%s' % (m['path'], path_cond(E, path)))
+                    else:
+                        infeasible_unlink = path.exit == 'panic' and any(
+                            e['k'] == 'qop' and e['op'] == 'remove' for e in path.events)
+                        if infeasible_unlink:
+                            continue   # the failed-unlink panic: shown infeasible by C01.I1
+                        R.fail('C03.R6', [m['path'], 'notified-waiter-does-not-take-free-mutex', path.exit],
+                               '%s: a notified waiter polls while the mutex is free and does not obtain it (%s) [%s]'
+                               % (m['path'], 'panics' if path.exit == 'panic' else 'stays pending',
+                                  path_cond(E, path)), '%s:%s' % (m['file'], m['line']),
+                               {'trace': trace_summary(path)})
             # R4 (state level): wakers taken are returned
             w3_waker_use(R, E, F, m, paths, 'C03.R4', strict=False)
             # R5: Pending => current waker stored
